@@ -31,7 +31,7 @@ pub struct Scalar {
 
 impl fmt::Debug for Scalar {
     fn fmt(&self, f: &mut fmt::Formatter<'_>) -> fmt::Result {
-        if self.tag == 0 && self.l[0] != MAGIC_U64 && !self.l.iter().any(|x| parse_limb(&x.to_le_bytes()).is_some()) {
+        if self.tag == 0 && self.l[0] != MAGIC_U64 && !self.l.iter().any(|x| parse_window(&x.to_le_bytes()).is_some()) {
             write!(f, "Sc({})", fq::to_dec(&fq::reduce(&self.l)))
         } else {
             write!(f, "Sc(t{})", self.term())
@@ -81,9 +81,9 @@ impl Scalar {
         }
         // `from_raw` applied to 64-bit words some of which are limbs of 256-bit blobs (a digest turned into a scalar):
         // value = sum_k word_k * 2^(64k)  (mod q)
-        let limbs: Vec<Option<(u32, u8)>> = self.l.iter().map(|x| parse_limb(&x.to_le_bytes())).collect();
+        let limbs: Vec<Option<(u32, u8)>> = self.l.iter().map(|x| parse_window(&x.to_le_bytes())).collect();
         if limbs.iter().any(|x| x.is_some()) {
-            if let (Some((v, 0)), Some((v1, 1)), Some((v2, 2)), Some((v3, 3))) = (limbs[0], limbs[1], limbs[2], limbs[3]) {
+            if let (Some((v, 0)), Some((v1, 8)), Some((v2, 16)), Some((v3, 24))) = (limbs[0], limbs[1], limbs[2], limbs[3]) {
                 if v == v1 && v == v2 && v == v3 {
                     return var_node(v);
                 }
@@ -94,7 +94,14 @@ impl Scalar {
             for k in 0..4 {
                 let word = match limbs[k] {
                     Some((v, i)) => mk(Node::Limb(v, i)),
-                    None => konst([self.l[k], 0, 0, 0]),
+                    None => {
+                        if suspicious_word(&self.l[k].to_le_bytes()) {
+                            // bytes of a blob image cut in a way the model cannot follow (not an 8-byte window): the value
+                            // below would be meaningless; the engine reports the run as inconclusive
+                            with(|a| a.unmodelled_words += 1);
+                        }
+                        konst([self.l[k], 0, 0, 0])
+                    }
                 };
                 let term = mk(Node::Mul(word, konst(w)));
                 acc = mk(Node::Add(acc, term));
